@@ -311,6 +311,17 @@ def r2_elements_compared_boolean_aware(ctx):
         txt = P.un(h)
         ok = f"isinstance({a}, (bool, type(None)))" in txt and f"isinstance({b}, (bool, type(None)))" in txt and f"{a} is {b}" in txt
         ctx.ob("C05.R2", f"{IFACE}::{h.name}::guards both operands", IFACE, h.lineno, ok, "" if ok else "the element comparison does not keep booleans/nil apart from numbers on both sides")
+    # a value wrapper is equal exactly when what it wraps is: the wrapped forms are elements too
+    TAGGED = "src/basilisp/lang/tagged.py"
+    tcls = P.find_def(ctx.py(TAGGED), "TaggedLiteral")
+    teq = P.methods(tcls).get("__eq__") if tcls is not None else None
+    if teq is None:
+        raise AnalysisError("anchor vanished: TaggedLiteral.__eq__")
+    rawf = [c for c in ast.walk(teq) if isinstance(c, ast.Compare) and any(isinstance(o, (ast.Eq, ast.NotEq)) for o in c.ops)
+            and {P.un(c.left), P.un(c.comparators[0])} == {"self._form", "other._form"}]
+    ctx.ob("C05.R2", f"{TAGGED}::TaggedLiteral.__eq__::the wrapped forms are compared boolean-aware", TAGGED, teq.lineno, not rawf,
+           "" if not rawf else f"`{P.un(rawf[0])}` compares the wrapped forms with raw Python equality: a tagged boolean equals the same tag around 1 / 0",
+           witness="(= (tagged-literal 'x 1) (tagged-literal 'x true)) => true")
     for rel, cname in ((MAP, "PersistentMap"), (SET, "PersistentSet")):
         cls = P.find_def(ctx.py(rel), cname)
         eq = P.methods(cls).get("__eq__")
@@ -404,6 +415,8 @@ def r4_symmetric_predicate(ctx):
 
 
 SELFTEST = [
+    {"name": "tagged literal forms compared with == (the repaired defect)", "file": "src/basilisp/lang/tagged.py", "expect": "C05.R2",
+     "old": "_elem_equals(self._form, other._form)", "new": "self._form == other._form"},
     {"name": "map equality delegates to the Python mapping (the repaired defect)", "file": MAP, "expect": "C05.R2",
      "old": "        sentinel = object()\n        for k, v in self._inner.items():\n            other_v = other.get(k, sentinel)\n            if other_v is sentinel or not _elem_equals(v, other_v):\n                return False\n        return True\n",
      "new": "        return self._inner == other\n"},
